@@ -180,7 +180,8 @@ class RuntimeAssertionFeedback(AssertionFeedback):
             if parent is not None:
                 if not parent.try_all:
                     raise AssertionBreak(self, e)
-        if not self:
+        if self:
+            # This assertion failed: under @stop_on_failure / @phase the rest is skipped
             if self.report[TOOL_NAME]['exceptions']:
                 raise AssertionBreak(self)
 
